@@ -163,4 +163,9 @@ def _gc(d, keep):
 
 def load(path):
     with open(path) as fh:
-        return json.load(fh)
+        d = json.load(fh)
+    # functions that are not in the baseline of the reviewed tree are analysed as part of their callers (see inline.py)
+    if os.environ.get("FLAN_NO_INLINE") != "1":
+        from . import inline
+        inline.inline_program(d)
+    return d
